@@ -322,7 +322,8 @@ theorem load_state (img : Bytes) (o : Obj) (k : StreamKind) (isLazy : Bool) (htr
     (hwf : WellFormedImage img) :
     ∃ r : LoadRes, load o { data := img, kind := k } isLazy = .ok r ∧ LoadSpec img r ∧ r.obj.trans = [] ∧
       ∀ i (hi : i < r.obj.secs.length), r.obj.secs[i].addrSet = true ∧
-        (isLazy = false → r.obj.secs[i].view = secFileBytes img i) := by
+        (isLazy = false ∨ r.obj.secs[i].data.isSome = true → r.obj.secs[i].view = secFileBytes img i) ∧
+        (∀ d, r.obj.secs[i].data = some d → d = r.obj.secs[i].view ++ [0]) := by
   obtain ⟨r0, hr0, hspec⟩ := load_eq_spec img o k isLazy htr hwf
   obtain ⟨hmag, hcls, hdat, hehs, h63, hshent, hphent, hS, hP, hndx, hnames⟩ := hwf
   have hsz := sizes_eq (clsOf img)
@@ -418,10 +419,42 @@ theorem load_state (img : Bytes) (o : Obj) (k : StreamKind) (isLazy : Bool) (htr
   have hi' : i < eh img "e_shnum" := by rw [r10, hshnum] at hi; exact hi
   obtain ⟨res, ⟨fd, L, hst, _⟩, hres⟩ := r11 i hi
   rw [hshb] at hst
-  constructor
-  · rw [hst]
+  refine ⟨by rw [hst], ?_, ?_⟩
+  rotate_left
+  · intro d hd
+    cases res with
+    | false => rw [hst] at hd; simp at hd
+    | true =>
+      have hin := hinS i hi'
+      rw [hst] at hd ⊢
+      simp only [SecBuf.view, if_true] at hd ⊢
+      unfold secData_ls at hd ⊢
+      by_cases hty : isNullOrNobitsTy (secHdr (clsOf img) (encOf img) img (shBase img i) isLazy i).stype = true
+      · rw [if_pos hty] at hd; cases hd
+      · have hty' : isNullOrNobitsTy (secHdr (clsOf img) (encOf img) img (shBase img i) isLazy i).stype = false := by
+          simpa using hty
+        rw [if_neg hty] at hd ⊢
+        by_cases hz : (secHdr (clsOf img) (encOf img) img (shBase img i) isLazy i).size = 0
+        · rw [if_pos hz] at hd ⊢
+          simp only [Option.some.injEq] at hd
+          subst hd
+          simp [hz, alloc]
+        · rw [if_neg hz] at hd ⊢
+          simp only [Option.some.injEq] at hd
+          subst hd
+          have hl : (slice img (secHdr (clsOf img) (encOf img) img (shBase img i) isLazy i).offset.toNat
+              (secHdr (clsOf img) (encOf img) img (shBase img i) isLazy i).size.toNat).length =
+              (secHdr (clsOf img) (encOf img) img (shBase img i) isLazy i).size.toNat :=
+            slice_length_of_le (hin hty')
+          simp only [Option.getD_some]
+          rw [List.take_append_of_le_length (by omega), List.take_of_length_le (by omega)]
   · intro hl
-    have hr' := hres hl
+    have hr' : res = true := by
+      rcases hl with hl | hl
+      · exact hres hl
+      · cases res with
+        | true => rfl
+        | false => rw [hst] at hl; simp at hl
     subst hr'
     have hk := (hS i hi').1
     have := secData_take img (secHdr (clsOf img) (encOf img) img (shBase img i) isLazy i) (hinS i hi')
@@ -528,7 +561,7 @@ theorem reload_of_holds {c : Cls} {enc : Enc} {h : Bytes} {secs : List SecBuf} {
       have := List.getElem?_eq_getElem hi2
       rw [hb2] at this; exact (Option.some.inj this).symm
     obtain ⟨q0, q1, q2, q3, q4, q5, q6, q7, q8, q9, q10, q11, q12⟩ := lsec i hi2
-    obtain ⟨a1, a2⟩ := lst i hi2
+    obtain ⟨a1, a2, -⟩ := lst i hi2
     rw [e2] at q0 q1 q2 q3 q4 q5 q6 q7 q8 q9 q10 q11 q12 a1 a2
     refine ⟨⟨q0.trans hidx.symm, bv_eq q1 s0, bv_eq q2 s1, bv_eq q3 s2, bv_eq q4 s3,
       bv_eq q5 s4, bv_eq q6 s5, bv_eq q7 s6, bv_eq q8 s7, bv_eq q9 s8,
@@ -557,7 +590,7 @@ theorem reload_of_holds {c : Cls} {enc : Enc} {h : Bytes} {secs : List SecBuf} {
       have hfb := H.secFileBytes hi hbm hf hres
       rw [hidx] at hfb
       constructor
-      · intro hl; rw [a2 hl, hfb]
+      · intro hl; rw [a2 (Or.inl hl), hfb]
       · intro ls hls
         have := q12 ls hls
         rw [hcls] at this
@@ -1230,7 +1263,7 @@ theorem loaded_of_wellFormed (img : Bytes) (o2 : Obj) (k : StreamKind) (htr : o2
       have := List.getElem?_eq_getElem hi
       rw [hb] at this; exact (Option.some.inj this).symm
     obtain ⟨_, q1, q2, q3, q4, q5, q6, q7, q8, q9, q10, _, _⟩ := lsec i hi
-    obtain ⟨a1, a2⟩ := lst i hi
+    obtain ⟨a1, a2, -⟩ := lst i hi
     rw [e2] at q1 q2 q3 q4 q5 q6 q7 q8 q9 q10 a1 a2
     have hbase : Spec.get (Spec.ehdrL (clsOf img)) (encOf img) img 0 "e_shoff" +
         Spec.get (Spec.ehdrL (clsOf img)) (encOf img) img 0 "e_shentsize" * i = shBase img i := by
@@ -1238,7 +1271,7 @@ theorem loaded_of_wellFormed (img : Bytes) (o2 : Obj) (k : StreamKind) (htr : o2
     simp only [hbase]
     refine ⟨q1, q2, q3, q4, q5, q6, q7, q8, q9, q10, a1, ?_⟩
     intro n1 n2 n3
-    rw [a2 rfl]
+    rw [a2 (Or.inl rfl)]
     unfold secFileBytes
     rw [← q2, ← q5, ← q6, if_pos (occ_occupies ⟨n1, n2, n3⟩)]
   · intro j g hg
